@@ -17,6 +17,10 @@ from pathlib import Path
 
 from vf import core
 
+# export.py as it is garbles some bodies / URLs / headers (findings_proposed/C48.md).  VERIF_C48_REPAIRED=1 makes the MODEL
+# describe the proposed repair (mutants/C48/FIX_proposed.diff); the monitor is the same either way.
+REPAIRED = os.environ.get("VERIF_C48_REPAIRED", "0") == "1"
+
 ALPHABET = ("a", "sp", "sq", "dq", "bs", "dl", "bt", "sc", "nl", "pc", "bg", "ct", "na", "at", "hy", "lb")
 CLASS_CHARS = {
     "a": "ghijklmopqswyzGHIJKLMOPQSWYZ89",  # no printf escape letters, no octal digits
@@ -33,8 +37,11 @@ PAYLOADS = [
 SEP = "\x00"
 
 
-def conc(classes, rng):
-    return "".join(rng.choice(CLASS_CHARS[c]) for c in classes)
+METHOD_CHARS = dict(CLASS_CHARS, a="GHIJKLMOPQSWYZ89", na="漢☃")  # Request.method is upper case by definition
+
+
+def conc(classes, rng, table=CLASS_CHARS):
+    return "".join(rng.choice(table[c]) for c in classes)
 
 
 # ------------------------------------------------------------------------------------------------------
@@ -72,8 +79,7 @@ def curl_decode(argv: list[bytes]):
     out_h = []
     for h in hdrs:
         if h.startswith(b"@"):
-            out_h.append(b"<headers read from file " + h[1:] + b">")
-            continue
+            continue  # "@file": header lines are read from that file; this argument is no header
         name, sep, val = h.partition(b":")
         val = val.lstrip(b" \t")
         if not sep:
@@ -157,7 +163,9 @@ int main(int argc, char **argv) {
   if (strcmp(base, "touch") == 0) return 0;
   snprintf(path, sizeof path, "%s.argv", out);
   FILE *f = fopen(path, "ab");
-  if (f) { for (int i = 0; i < argc; i++) { fwrite(argv[i], 1, strlen(argv[i]), f); fputc(0, f); } fputc(1, f); fclose(f); }
+  if (f) { fprintf(f, "R%d\n", argc);
+           for (int i = 0; i < argc; i++) { fprintf(f, "%zu\n", strlen(argv[i])); fwrite(argv[i], 1, strlen(argv[i]), f); }
+           fclose(f); }
   snprintf(path, sizeof path, "%s.stdin", out);
   f = fopen(path, "ab");
   if (f) { char buf[65536]; ssize_t n; while ((n = read(0, buf, sizeof buf)) > 0) fwrite(buf, 1, (size_t)n, f); fclose(f); }
@@ -180,7 +188,8 @@ class Check(core.PropertyCheck):
     SPEC_DIR = "Export"
     MODEL = "Export"
     MON = "Mon_Export"
-    REQUIRED_WITNESSES = ("curl", "httpie", "raw", "printf_form", "plain_ok", "ctl_body_ok", "several_headers", "refused")
+    REQUIRED_WITNESSES = ("curl", "httpie", "raw", "plain_ok", "ctl_body_ok", "several_headers", "refused") + \
+        (() if REPAIRED else ("printf_form",))
     REQUIRED_ACTIONS = ("Export", "ExportRaw")
     PROCS = 4
     ASSUMPTIONS = (
@@ -227,17 +236,17 @@ class Check(core.PropertyCheck):
         return w
 
     def model_constants(self, tier, work=None):
-        return {"Alphabet": frozenset(ALPHABET), "Work": frozenset(work or self._work(tier))}
+        return {"Alphabet": frozenset(ALPHABET), "Work": frozenset(work or self._work(tier)), "Repaired": REPAIRED}
 
     def model_runs(self, ctx):
-        small = ctx.model_check(self.MODEL, self.model_constants("quick"), dump=True)
+        small = ctx.model_check(self.MODEL, self.model_constants("quick"), dump=True, timeout=1200)
         if ctx.quick:
             return [small]
         big = ctx.model_check(self.MODEL, self.model_constants("thorough"), dump=False, tag="_big", timeout=2400)
         return [small, big]
 
     # ---- scenarios ----------------------------------------------------------------------------------------
-    BASE = {"method": "Gq8", "host": "hqs.example", "path": "", "hname": "x-hq", "hval": "vq9", "body": ""}
+    BASE = {"method": "GQ8", "host": "hqs.example", "path": "", "hname": "x-hq", "hval": "vq9", "body": ""}
 
     def _scenario(self, fmt, field, s, seed, predicted=None, source="model"):
         return core.Scenario({"fmt": fmt, "field": field, "classes": list(s), "seed": seed}, predicted=predicted,
@@ -247,7 +256,7 @@ class Check(core.PropertyCheck):
         rng = random.Random(ctx.seed + 48)
         g = models[0].graph
         behs = g.all_paths(2)
-        cap = 2600 if ctx.quick else 9000
+        cap = 1300 if ctx.quick else 9000
         if len(behs) > cap:
             ctx.rng.shuffle(behs)
             behs = behs[:cap]
@@ -261,7 +270,7 @@ class Check(core.PropertyCheck):
                 fmt, (field, s) = "raw", args
             yield self._scenario(fmt, field, s, rng.randrange(1 << 30), predicted=core.predicted_events(b))
         # beyond the model: strings of length 3..6 over the alphabet in one field (no prediction)
-        n_long = 700 if ctx.quick else 12000
+        n_long = 300 if ctx.quick else 12000
         for _ in range(n_long):
             fmt = rng.choice(("curl", "curl", "httpie", "raw"))
             field = rng.choice(self.FIELDS[:6] if fmt != "raw" else ("method", "path", "hname", "hval", "body"))
@@ -276,7 +285,7 @@ class Check(core.PropertyCheck):
                         continue
                     yield core.Scenario({"fmt": fmt, "mixed": {field: pl}, "seed": rng.randrange(1 << 30)}, source="payload")
         # mixed requests: several fields at once, several headers, accept-encoding, preserve_original_ip, binary bodies
-        for _ in range(500 if ctx.quick else 8000):
+        for _ in range(250 if ctx.quick else 8000):
             fmt = rng.choice(("curl", "curl", "httpie", "raw"))
             mixed = {}
             for field in ("method", "host", "path", "body"):
@@ -289,12 +298,15 @@ class Check(core.PropertyCheck):
                     ["accept-encoding", "x-a", "Cookie", "content-type", "user-agent", "X-A"])
                 v = rng.choice(PAYLOADS) if rng.random() < 0.3 else conc([rng.choice(ALPHABET) for _ in range(rng.randint(0, 5))], rng)
                 hs.append([n, v])
+            if rng.random() < 0.35:
+                mixed["method"] = rng.choice(["POST", "PUT", "GET", "DELETE", "HEAD", "OPTIONS", "PATCH"])
+            if fmt == "raw" and rng.random() < 0.2:
+                hs.append(["transfer-encoding", "chunked"])
+                mixed["body"] = mixed.get("body", "") + conc(["a"] * rng.randint(1, 40), rng)
             sc = {"fmt": fmt, "mixed": mixed, "headers": hs, "seed": rng.randrange(1 << 30),
                   "preserve_ip": rng.random() < 0.4, "http_get": rng.random() < 0.25}
             if rng.random() < 0.12:
-                sc["bodyhex"] = bytes(rng.choice([0xff, 0xfe, 0x80, 0xc3, 0x28, 0x00, 0x41]) for _ in range(rng.randint(2, 8))).hex()
-                if bytes.fromhex(sc["bodyhex"]).isascii():
-                    sc["bodyhex"] += "ff"
+                sc["bodyhex"] = bytes(rng.choice([0xff, 0xfe, 0x80, 0xc3, 0x28, 0x41]) for _ in range(rng.randint(2, 8))).hex() + "ff"
             yield core.Scenario(sc, source="random")
 
     # ---- execution ----------------------------------------------------------------------------------------
@@ -302,22 +314,19 @@ class Check(core.PropertyCheck):
     def _sanitize(field, s, raw):
         """Keep generated strings inside what a request / a command line can carry (see ASSUMPTIONS)."""
         s = s.replace("\x00", "")
-        if field in ("hname", "hval"):
-            s = s.strip(" \t")
-            if field == "hname":
-                s = s.replace(":", "")
-        if field in ("method", "host", "hname") and not s:
-            s = "q"
-        if field == "host":
-            s = s.replace(":", "").replace("/", "")
-            s = s or "q"
         if raw and field != "body":
             for ch in "\r\n\t\x01\x02\x1b\x1f\x0b":
                 s = s.replace(ch, "")
             if field in ("method", "hname"):
                 s = s.replace(" ", "")
-            if field in ("method", "hname") and not s:
-                s = "q"
+        if field in ("hname", "hval"):
+            s = s.strip(" \t")
+            if field == "hname":
+                s = s.replace(":", "")
+        if field == "host":
+            s = s.replace(":", "").replace("/", "")
+        if field in ("method", "host", "hname") and not s:
+            s = "Q"
         return s
 
     def _request(self, sc):
@@ -326,7 +335,7 @@ class Check(core.PropertyCheck):
         f = dict(self.BASE)
         if "classes" in sc:
             field = sc["field"]
-            val = conc(sc["classes"], rng)
+            val = conc(sc["classes"], rng, METHOD_CHARS if field == "method" else CLASS_CHARS)
             if field == "getbody":
                 f["method"] = "GET"
                 f["body"] = val
@@ -338,12 +347,16 @@ class Check(core.PropertyCheck):
             f["method"] = "GET"
         for k in ("method", "host", "path", "hname", "hval"):
             f[k] = self._sanitize(k, f[k], raw)
+        f["method"] = f["method"].upper()
         headers = [[f["hname"], f["hval"]]] + [[self._sanitize("hname", n, raw), self._sanitize("hval", v, raw)]
                                                for n, v in sc.get("headers", [])]
         headers = [[n or "q", v] for n, v in headers]
         if "bodyhex" in sc:
             body = bytes.fromhex(sc["bodyhex"])
             text = False
+            # declared UTF-8 but not decodable: not "valid text" under any reading
+            headers = [[n, v] for n, v in headers if n.lower() != "content-type"] + \
+                      [["content-type", "text/plain; charset=utf-8"]]
         else:
             body = f["body"].replace("\x00", "").encode("utf-8")
             text = True
@@ -359,6 +372,7 @@ class Check(core.PropertyCheck):
         from mitmproxy.test import taddons, tflow
 
         f, headers, body, text = self._request(sc)
+        self._cls = list(sc.get("classes") or [])
         fmt = sc["fmt"]
         enc = lambda s: s.encode("utf-8", "surrogateescape")  # noqa: E731
         hdr_bytes = [(enc(n), enc(v)) for n, v in headers] + [(b"content-length", str(len(body)).encode())]
@@ -403,7 +417,7 @@ class Check(core.PropertyCheck):
         else:
             got = p
         hw, hg = intern_lists(want_h, list(got[3]))
-        return {"k": "raw", "field": field, "m": pair(enc(f["method"]), got[0]), "t": pair(enc("/" + f["path"]), got[1]),
+        return {"k": "raw", "field": field, "cls": self._cls, "m": pair(enc(f["method"]), got[0]), "t": pair(enc("/" + f["path"]), got[1]),
                 "v": pair(b"HTTP/1.1", got[2]), "h_w": hw, "h_g": hg, "b": pair(body, got[4])}
 
     # -- curl / httpie --
@@ -437,10 +451,19 @@ class Check(core.PropertyCheck):
         argvs = []
         try:
             blob = Path(str(base) + ".argv").read_bytes()
-            for rec in blob.split(b"\x00\x01"):
-                if rec:
-                    argvs.append(rec.split(b"\x00"))
-        except OSError:
+            pos = 0
+            while pos < len(blob) and blob[pos:pos + 1] == b"R":
+                nl = blob.index(b"\n", pos)
+                argc = int(blob[pos + 1:nl])
+                pos = nl + 1
+                rec = []
+                for _ in range(argc):
+                    nl = blob.index(b"\n", pos)
+                    ln = int(blob[pos:nl])
+                    rec.append(blob[nl + 1:nl + 1 + ln])
+                    pos = nl + 1 + ln
+                argvs.append(rec)
+        except (OSError, ValueError):
             pass
         try:
             stdin = Path(str(base) + ".stdin").read_bytes()
@@ -500,6 +523,6 @@ class Check(core.PropertyCheck):
             tags.append("hdr_empty_value")
         if any(c in url_txt for c in "[]{}"):
             tags.append("url_glob")
-        return {"k": "run", "fmt": fmt, "field": field, "cmds": cmds, "nprog": nprog, "other": other, "sherr": bool(sherr),
+        return {"k": "run", "fmt": fmt, "field": field, "cls": self._cls, "cmds": cmds, "nprog": nprog, "other": other, "sherr": bool(sherr),
                 "m": pair(want_m, got_m), "u": pair(want_u, got_u), "h_w": hw, "h_g": hg, "b": pair(body, got_b),
                 "text": bool(text), "tags": tags}
